@@ -58,9 +58,9 @@ class C08(Property):
     ASSUMPTIONS = [
         "the line of a parameter's '=' is 1 + the number of '\\n' characters "
         "before it (the definition documented in pvl/exceptions.py)",
-        "labels use the core vocabulary and never contain a dash "
-        "continuation (the default parser removes those before lexing, "
-        "which changes what 'line' means)",
+        "lines are those of the text as handed to the loader; 15% of the "
+        "labels carry a dash-continued string before the losses (the "
+        "default parser removes continuations before lexing)",
     ]
     COMPONENTS_REAL = ["pvl.loads (OmniParser/OmniGrammar/OmniDecoder)",
                        "PVLParser, ODLParser with PVL/ODL/PDS3 grammars",
@@ -72,7 +72,9 @@ class C08(Property):
                        "probe.loss-with-semicolon-kept",
                        "probe.comment-with-equals-after-loss",
                        "probe.loss-before-block-begin",
-                       "probe.eq-on-own-line"]
+                       "probe.eq-on-own-line",
+                       "probe.dash-continuation-before-loss",
+                       "probe.other-configuration-used-first"]
 
     def expected(self, toks):
         """(expected tree with ("empty", line), sorted lines) or None."""
@@ -115,6 +117,10 @@ class C08(Property):
             if out is not None:
                 out.inc("oracle-abstained")
             return vs
+        if case.get("other_first"):
+            # another configuration used earlier in the same process must
+            # not matter (state shared between parser instances)
+            dialects.load(case["other_first"], text)
         o = dialects.load("default", text)
         if out is not None:
             out.evals += 1
@@ -178,6 +184,17 @@ class C08(Property):
                            ).document()
         style = gen.Style(rng, "default")
         toks = gen.full_tokens(stmts, style)
+        if rng.random() < 0.15:
+            # a dash continuation earlier in the file: the default parser
+            # removes "-<line end><white space>" before lexing, which must
+            # not shift the line numbers it reports
+            nl = rng.choice(["\n", "\r\n"])
+            cont = gen.Tok(gen.STR, '"abc-' + nl + '      def"', "value", 0,
+                           -1, ("str", "abcdef"))
+            toks = [gen.Tok(gen.NAME, "DASHED", "name", 0, -1,
+                            ("str", "DASHED")),
+                    gen.Tok(gen.EQ, "=", "eq", 0, -1), cont] + toks
+            out.inc("probe.dash-continuation-before-loss")
         # assignments: stmt id -> indices of value tokens, name index
         assigns = {}
         order = []
@@ -218,6 +235,9 @@ class C08(Property):
             plans.append(("subset", sorted(rng.sample(order, k))))
         if len(plans) > 40:
             plans = rng.sample(plans, 40)
+        other_first = rng.choice([None, None, "ISIS", "ISIS", "PVL"])
+        if other_first:
+            out.inc("probe.other-configuration-used-first")
         for kind, lose in plans:
             lose = set(lose)
             keep_semi = rng.random() < 0.5
@@ -259,6 +279,8 @@ class C08(Property):
             case = {"tokens": [e1.tok_json(t) for t in damaged],
                     "lines": [t.line for t in damaged], "text": text,
                     "lost": len(lose)}
+            if other_first:
+                case["other_first"] = other_first
             out.violations.extend(self.execute_case(case, out))
         if out.violations:
             out.inc("violations", len(out.violations))
@@ -277,9 +299,12 @@ class C08(Property):
         def rebuilt(ts):
             ts = [t.clone() for t in ts]
             text = render_simple(ts)
-            return {"tokens": [e1.tok_json(t) for t in ts],
-                    "lines": [t.line for t in ts], "text": text,
-                    "lost": case.get("lost", 0)}
+            c = {"tokens": [e1.tok_json(t) for t in ts],
+                 "lines": [t.line for t in ts], "text": text,
+                 "lost": case.get("lost", 0)}
+            if case.get("other_first"):
+                c["other_first"] = case["other_first"]
+            return c
 
         plain = rebuilt(toks)
         if plain["text"] != case["text"]:
